@@ -343,9 +343,24 @@ def r3_progress_flag(ctx):
     b = ctx.need('C09.R3', 'complex_borrow_check', ctx.fb.body('pavexc', fn))
     if b is None:
         return
-    enum = fn + '::StrategyOnBlock'
+    # the strategy enum, declared inside the function or at module level; the transitions, written in the loop itself or in a method of the enum
+    MOD = PX + 'analyses::call_graph::borrow_checker::complex::'
+    enums = sorted({strip_generics(a['id']) for a in ctx.fb.adts('pavexc') if strip_generics(a['id']).startswith(MOD) and strip_generics(a['id']).endswith('::StrategyOnBlock')})
+    enum = ctx.need('C09.R3', 'enum StrategyOnBlock', enums[0] if len(enums) == 1 else None)
+    if enum is None:
+        return
+    from .compiler_common import family_bodies
+    cands = [x for x in family_bodies(ctx, 'pavexc', [fn]) if not x.is_promoted]
+    cands += [x for x in ctx.fb.bodies('pavexc') if not x.is_promoted and strip_generics(x.raw.get('impl_self') or '') == enum and x not in cands and not x.raw.get('exp')]
+    caller = b
+    withsw = [x for x in cands if list(enum_switches(x, enum))]
+    # the body that holds the transition table: the one whose arms build values of the enum
+    def builds(x):
+        return any(st['rv']['k'] == 'agg' and strip_generics(st['rv'].get('adt', '')) == enum for _, _, st in x.all_assigns())
+    tb = [x for x in withsw if builds(x)]
+    b = tb[0] if tb else b
     sws = list(enum_switches(b, enum))
-    ctx.floor('C09.R3', 'matches on the strategy', len(sws), 2)
+    ctx.floor('C09.R3', 'matches on the strategy', len([1 for x in withsw for _ in enum_switches(x, enum)]), 2)
     ORDER = {'Park': 0, 'Clone': 1, 'Error': 2}
     table = {}
     nonesc = []
@@ -377,6 +392,26 @@ def r3_progress_flag(ctx):
         ctx.ob('C09.R3', 'licensed|%s->%s' % (frm, to), bool(flags), b.loc(bb, s), 'the non-escalating transition %s->%s is guarded by flag(s) %s'
                % (frm, to, sorted(b.var_name(x) for x in flags)))
         for fl in flags:
+            if 1 <= fl <= b.raw['argc'] and b is not caller:
+                # the flag is handed to the transition function: it lives with the caller (a local, or a field of the state struct). It is
+                # "cleared" if the loop that drives the transitions assigns `false` to it somewhere
+                name = b.var_name(fl)
+                clears2 = []
+                for x in cands:
+                    for xb, j, st in x.all_assigns():
+                        if st['rv']['k'] == 'use' and st['rv']['op'].get('int') == '0' and x.locals[st['lhs']['l']] != 'bool' or st['rv']['k'] != 'use':
+                            pass
+                        if st['rv']['k'] == 'use' and st['rv']['op'].get('int') == '0':
+                            pp = st['lhs'].get('p') or []
+                            named = (pp and pp[-1] == 'f:' + name) or (not pp and x.var_name(st['lhs']['l']) == name)
+                            in_loop = xb in x.reachable(x.succ(xb))
+                            if named and in_loop:
+                                clears2.append(x.loc(xb, st))
+                ctx.ob('C09.R3', 'flag-cleared|%s|%s->%s' % (name, frm, to), bool(clears2), b.loc(bb, s),
+                       'after taking %s->%s the flag `%s` (kept by the caller of %s) is %s' % (frm, to, name, b.nid.split('::')[-1],
+                           'reset inside the fixed-point loop at %s' % clears2[:2] if clears2 else
+                           'NEVER reset inside the fixed-point loop: once set it licenses Clone->Park forever and Error is unreachable'))
+                continue
             clears = [xb for xb, j, st in b.all_assigns() if st['lhs'] == {'l': fl} and st['rv']['k'] == 'use' and st['rv']['op'].get('int') == '0']
             # blocks that test the flag: switches on a copy of it
             tests = []
